@@ -120,6 +120,12 @@ class Stream:
             return
         if self.fh is None:
             self.fh = open(self.path, "wb")
+        elif n > self.written and not os.path.exists(self.path):
+            # somebody removed the output file while the program runs (an engine cleaning up
+            # after a program it believes stopped): like the real programs, which reopen their
+            # output per write, keep writing under the same name
+            self.fh.close()
+            self.fh = open(self.path, "ab")
         blob = b"".join(self.frames)
         if n > self.written:
             self.fh.write(blob[self.written:n])
